@@ -125,8 +125,9 @@ class Interp:
     MAX_PATHS = 256
     MAX_STEPS = 20000
 
-    def __init__(self, prog, mod, enter=(), call_hook=None, attr_hook=None, known_functions=None, symbolic_loops=False):
+    def __init__(self, prog, mod, enter=(), call_hook=None, attr_hook=None, known_functions=None, symbolic_loops=False, index_hook=None):
         self.prog, self.mod = prog, mod
+        self.index_hook = index_hook      # index_hook(base, key) -> value or NotImplemented, consulted before a subscript is evaluated
         self.symbolic_loops = symbolic_loops      # a loop over an iterable of unknown length is executed once with symbolic targets
         self.enter = set(enter)
         self.call_hook, self.attr_hook = call_hook, attr_hook
@@ -310,9 +311,10 @@ class Interp:
                     raise
                 # one symbolic iteration: every name of the target denotes "the value in an arbitrary iteration"
                 self.path.events.append(('loop', show(itv), ast.unparse(st.target)))
+                item_len = itv.attrs.get('__item_length__') if isinstance(itv, Sym) else None
                 for nm in ast.walk(st.target):
                     if isinstance(nm, ast.Name):
-                        env.set(nm.id, Sym(nm.id))
+                        env.set(nm.id, Sym(nm.id, length=item_len if nm is st.target else None))
                 try:
                     self.block(st.body, env)
                 except (_Break, _Continue):
@@ -467,6 +469,10 @@ class Interp:
 
     # ---- expressions -------------------------------------------------------------------------------------
     def index(self, base, k, node):
+        if self.index_hook is not None:
+            r = self.index_hook(base, k)
+            if r is not NotImplemented:
+                return r
         if isinstance(base, Sym):
             if isinstance(k, slice):
                 if base.length is not None and all(isinstance(x, (int, type(None))) for x in (k.start, k.stop, k.step)):
@@ -752,7 +758,7 @@ class Interp:
             return Sym('%s.%s' % (base.text, attr), struct=('attr', base, attr))
         if isinstance(base, dict) and attr in ('pop', 'get', 'items', 'keys', 'values', 'setdefault', 'update', 'copy'):
             return _Method(base, attr)
-        if isinstance(base, list) and attr in ('append', 'extend', 'index', 'pop', 'insert', 'copy', 'count', 'reverse', 'sort'):
+        if isinstance(base, list) and attr in ('append', 'extend', 'index', 'pop', 'insert', 'copy', 'count', 'reverse', 'sort', 'remove', 'clear'):
             return _Method(base, attr)
         if isinstance(base, tuple) and attr in ('index', 'count'):
             return _Method(base, attr)
@@ -912,6 +918,18 @@ class _Method:
             if n == 'reverse':
                 o.reverse()
                 return None
+            if n == 'clear':
+                del o[:]
+                return None
+            if n == 'remove' and is_concrete(o) and is_concrete(args[0]):
+                try:
+                    o.remove(args[0])
+                except ValueError:
+                    raise Raised('ValueError')
+                return None
+            if n == 'sort' and is_concrete(o) and not kwargs:
+                o.sort()
+                return None
         if isinstance(o, (list, tuple)) and n in ('index', 'count') and is_concrete(list(o)) and is_concrete(args[0]):
             try:
                 return getattr(o, n)(args[0])
@@ -923,7 +941,7 @@ class _Method:
             except Exception:
                 raise Undecidable('str.%s' % n)
         if isinstance(o, str):
-            return Sym('%s.%s(...)' % (repr(o)[:20], n), truth=True)
+            return Sym('%s.%s(%s)' % (repr(o)[:40], n, ', '.join(show(a) for a in args)), truth=True, struct=('call', 'str.' + n, (o,) + tuple(args), dict(kwargs)))
         raise Undecidable('method %s of %s' % (n, type(o).__name__))
 
 
